@@ -257,6 +257,18 @@ def reuse_workload(ctx):
     pool += r.sample(corp, min(len(corp), 15))
     bad = ['MAP NAME "unterminated', "MAP LAYER END", "LAYER TYPE END END", "CLASS EXPRESSION ( END", "MAP\n# only comment\n", "STYLE COLOR 1 2 END",
            "MAP OUTPUTFORMAT IMAGEMODE FEATURE END END", "INCLUDE"]
+    # twin documents: the same keyword holding a number in one and the string with the same digits in the other (SYMBOL 1 / SYMBOL "1"),
+    # for every keyword whose schema takes both - what one object printed, validated or parsed for the first must not colour the second
+    twins = []
+    for o in vocab.object_types():
+        for k, pr in vocab.props(o).items():
+            kinds = pr.kinds()
+            if "string" in kinds and ({"number", "integer"} & kinds) and not k.startswith("__") and (o, k) not in gen.UNWRITABLE:
+                for n in ("1", "12", "2.5"):
+                    if n == "2.5" and "number" not in kinds:
+                        continue
+                    twins.append((f"{o.upper()}\n  {k.upper()} {n}\nEND\n", f"{o.upper()}\n  {k.upper()} \"{n}\"\nEND\n"))
+    res.count("twin_documents_available", len(twins))
     nseq = ctx.n(24, 480)
     for sidx in range(nseq):
         comments = r.random() < 0.5
@@ -270,8 +282,19 @@ def reuse_workload(ctx):
         v = Validator()
         length = r.randint(20, 40) if ctx.quick else r.randint(20, 200)
         mix = set()
+        pending = None
         for k in range(length):
-            text = r.choice(bad) if r.random() < 0.2 else r.choice(pool)
+            twin = pending is not None
+            if twin:
+                text, pending = pending, None
+            elif twins and r.random() < 0.12:
+                a, b = r.choice(twins)
+                text, pending = (a, b) if r.random() < 0.5 else (b, a)
+                twin = True
+            else:
+                text = r.choice(bad) if r.random() < 0.2 else r.choice(pool)
+            if twin:
+                res.count("twin_document_steps")
             if expand and engine._DIRECTIVE.search(text) and text != "INCLUDE":
                 continue
             version = r.choice([None, None, 5.0, 7.6, 8.0, 8.2])
@@ -300,7 +323,7 @@ def reuse_workload(ctx):
                 return out
 
             got = pipeline(p, m, pp, v)
-            if k % 2 == 0 or "parse_exc" in got:
+            if k % 2 == 0 or "parse_exc" in got or twin:
                 want = pipeline(Parser(expand_includes=expand, include_comments=comments),
                                 MapfileToDict(include_position=position, include_comments=comments), PrettyPrinter(**pp_opts), Validator())
                 res.count("reuse_comparisons")
